@@ -88,7 +88,19 @@ public:
         as_numer_denom(base_, outArg(num), outArg(den));
 
         // if the exp is a negative numer, or is intuitively 'negative'
-        if (handle_minus(exp_, outArg(exp_))) {
+        bool negative_exp = handle_minus(exp_, outArg(exp_));
+
+        // (num/den)**exp == num**exp / den**exp holds for all values of the
+        // symbols only if exp is an integer or den is a positive number,
+        // e.g. sqrt(x/(y - 3)) != sqrt(x)/sqrt(y - 3) for x = 1, y = 1
+        if (not is_a<Integer>(*exp_)
+            and not(is_a_Number(*den)
+                    and down_cast<const Number &>(*den).is_positive())) {
+            num = base_;
+            den = one;
+        }
+
+        if (negative_exp) {
             *numer_ = pow(den, exp_);
             *denom_ = pow(num, exp_);
         } else {
